@@ -127,6 +127,15 @@ def run(ctx):
                 opts["sri"] = rng.choice(others)["integrity"]
                 shared_content = True
             final = "commit"
+        if i % 25 == 11 and committed:
+            # a large declared size (no mmap, possibly preallocated), far fewer bytes, the bytes of a committed entry
+            e = rng.choice(committed)
+            cand = model.content[ref.sri_address(e["integrity"])]
+            if len(cand) > 0:
+                data, ln, shared_content = cand, len(cand), True
+                opts = {"size": rng.choice([MIB + 1, MIB + 4096, 2 * MIB + 7])}
+                chunks = gen.split(data, gen.chunking(rng, ln, shape="halves")[1])
+                point, final = "reject_size", "commit"
         req = {"op": "writer", "cache": cache, "opts": opts, "chunks": [ctx.data(c) for c in chunks], "final": final}
         if keyed:
             req["key"] = key
